@@ -34,11 +34,14 @@ theorem window_never_exceeded_by_push (o : Outgoing) (fi : Nat) (ps : List (Pub 
   unfold Outgoing.freeSlots at hk
   omega
 
-/-- an acknowledgement is accepted only for the head of the window and always removes the head:
-    an out-of-order or unsolicited ack is reported (`false` ⇒ the caller closes that connection) -/
+/-- an acknowledgement is accepted exactly for the head of the window and then removes it; an
+    out-of-order or unsolicited ack is reported (`false` ⇒ the caller closes that connection) and
+    leaves the window as it is, so the unacknowledged head is retransmitted when a persistent
+    session resumes -/
 theorem register_ack_fifo (o : Outgoing) (pkid : Nat) :
-    (o.registerAck pkid).1.inflight = o.inflight.drop 1 ∧
-    ((o.registerAck pkid).2 = true ↔ ∃ fi c rest, o.inflight = (pkid, fi, c) :: rest) :=
+    ((o.registerAck pkid).2 = true ↔ ∃ fi c rest, o.inflight = (pkid, fi, c) :: rest) ∧
+    ((o.registerAck pkid).2 = true → (o.registerAck pkid).1.inflight = o.inflight.drop 1) ∧
+    ((o.registerAck pkid).2 = false → (o.registerAck pkid).1 = o) :=
   registerAck_spec o pkid
 
 /-- a read of the commit log for `n` slots returns at most `n` entries — for any log and cursor —
